@@ -321,7 +321,7 @@ fn main() {
     }
     let n = args.tier.pick(480usize, 16_000usize);
     let (seed, tier) = (args.seed, args.tier);
-    let rs = run_cases(n, args.threads, |i| with_setup!(SETUP_NAMES[i % SETUP_NAMES.len()], case, seed, i, tier));
+    let rs = run_cases_isolated(n, args.threads, |i| with_setup!(SETUP_NAMES[i % SETUP_NAMES.len()], case, seed, i, tier));
     rep.add_all(rs);
     rep.finish(args.tier.pick(100, 3000));
 }
